@@ -27,6 +27,16 @@ CHECKS = {
         note="User functions and the proposal are uninterpreted functions of the coordinates; FP obligations are first decided on a sound special-value abstraction of IEEE arithmetic and bit-precisely otherwise; kernels themselves and jax tracing outside.",
         ref="6/C05",
     ),
+    "C06": dict(
+        text="Step: on every feasible bisection path of the real determine_beta over all populations (N<=3/4), symbolic target efficiency (scalar / ramp) and the three min-step modes: no exception, beta_prev < beta' <= 1, floor honoured, rescaled min_step valid. Fixed schedule: n_steps is a symbolic bit-vector, 1/n an FP division, the real (logging-stripped) sample() loop runs in Float64 and the solver shows exactly n iterations ending at exactly 1.0 for every n in the bound. Loop-level termination is covered by the C08 loop harness obligations labelled c06/*.",
+        note="Temperatures/tolerance concrete dyadic; n_steps <= 12 (quick) / 64 (thorough); population stubbed out in the fixed-schedule harness (ladder independent of it when adaptive=False); known finding C06-D4 (beta stuck with min_step=0) listed in known_findings.json.",
+        ref="6/C06",
+    ),
+    "C07": dict(
+        text="On every feasible bisection path of the real determine_beta: the chosen temperature meets the ESS target in force at the current temperature (spec-side ESS written independently over exp atoms), some probe within the tolerance above it fails the target (maximality), a full step that meets the target is taken, and floor-forced steps are exactly the floor; for all populations, symbolic scalar/ramped targets, tolerance 1/4 (1/8 thorough).",
+        note="Temperatures and tolerance concrete dyadic rationals; symbolic targets written to the sampler's private fields (the public setter is exercised with floats); N<=3 quick, N<=4 thorough.",
+        ref="6/C07",
+    ),
     "C09": dict(
         text="For the real SMCSamples.resample: the probability vector handed to the generator is proportional to exp((b1-b0)(ll+lp-lq)) and sums to one, and with a symbolic index vector (one ite-select path covers all N^M index vectors) every output row equals its source row in x, log_likelihood, log_prior and log_q; new beta, requested size, parameters and dtype preserved.",
         note="Temperatures on the grid {0,1/4,1/2,3/4,1}; N<=3 (quick) / N<=4 (thorough), d=2; generator stub; reals for floats.",
